@@ -5,6 +5,7 @@ import (
 	"io"
 	"log"
 	"net"
+	"sort"
 	"strings"
 	"sync"
 	"testing"
@@ -540,4 +541,61 @@ func TestC09(t *testing.T) {
 	forCases(n/10, 97, "n", func(i int, r *rng, id string) { rrsLeg("C09", r, id) })
 	forCases(3, 98, "b", func(i int, r *rng, id string) { c09Busy(r, id) })
 	forCases(n/30, 99, "m", func(i int, r *rng, id string) { c09Multi(r, id) })
+	forCases(n/15, 990, "u", func(i int, r *rng, id string) { c09Auth(r, id) })
+	// hearsay only starts suspicion: histories around one member's suspicion, with the timer of a refuted
+	// suspicion expiring after the member was accused again
+	forCases(n/6, 991, "h", func(i int, r *rng, id string) { timerHistory("C09", r, id) })
+}
+
+// c09Auth: a join between a keyed host (label, inbound check checked or delegated) and a joiner that holds the
+// same or another key and the same, another or no label. The exchange is admitted only when the stream opens
+// under the host's key with the host's own label as associated data; otherwise neither side changes.
+func c09Auth(r *rng, id string) {
+	labels := []string{"", "blue", "green"}
+	hl, jl := labels[r.intn(3)], labels[r.intn(3)]
+	if r.chance(1, 2) {
+		jl = hl
+	}
+	skip := r.chance(1, 2)
+	k1, k2 := mkKey(r, 16), mkKey(r, 16)
+	sameKey := r.chance(2, 3)
+	jk := k1
+	if !sameKey {
+		jk = k2
+	}
+	host, err := newCnode(ccfg{label: hl, key: k1, verifyIn: true, verifyOut: true, name: "H", skipIn: skip})
+	if err != nil {
+		return
+	}
+	defer host.m.Shutdown()
+	joiner, err := newCnode(ccfg{label: jl, key: jk, verifyIn: true, verifyOut: true, name: "J"})
+	if err != nil {
+		return
+	}
+	defer joiner.m.Shutdown()
+	names := func(m *ml.Memberlist) string {
+		var l []string
+		for _, n := range m.Members() {
+			l = append(l, n.Name)
+		}
+		sort.Strings(l)
+		return strings.Join(l, "+")
+	}
+	hostPre, joinPre := names(host.m), names(joiner.m)
+	a, b := net.Pipe()
+	joiner.tr.dial = func(addr string) (net.Conn, error) { return a, nil }
+	done := make(chan struct{})
+	go func() { defer close(done); defer func() { recover() }(); ml.VerifHandleConn(host.m, b) }()
+	res := "ok"
+	if n, jerr := joiner.m.Join([]string{"H/10.0.0.9:7946"}); jerr != nil || n != 1 {
+		res = "err"
+	}
+	a.Close()
+	select {
+	case <-done:
+	case <-time.After(15 * time.Second):
+		res += "!hostblocked"
+	}
+	emit("C09 auth id=%s hl=%s jl=%s skip=%d samekey=%d res=%s hostpre=%s hostpost=%s joinpre=%s joinpost=%s", id,
+		hx([]byte(hl)), hx([]byte(jl)), b2i(skip), b2i(sameKey), res, hostPre, names(host.m), joinPre, names(joiner.m))
 }
